@@ -551,19 +551,18 @@ Theorem tarfile_grading_rule : forall c nm l kws,
   (* no members keyword : HIGH/HIGH *)
   (tar_filtered l kws = false -> kw_mem (s2p "members") l = false ->
    tarfile_unsafe_members_fn c = Ok (Some (tar_issue TarHigh []))) /\
-  (* members=<Call> : LOW/LOW when the callee is a Name, AttributeError otherwise *)
+  (* members=<Call> : LOW/LOW, naming the callee (Name id, else the attribute, else '') *)
   (forall k, tar_filtered l kws = false -> kw_mem (s2p "members") l = true ->
              first_kw (s2p "members") kws = Some k -> is_cls "Call" (field "value" k) = true ->
-             (forall f, field_opt "id" (field "func" (field "value" k)) = Some (NId f) ->
-                        tarfile_unsafe_members_fn c =
-                        Ok (Some (tar_issue TarLow (members_dict_str (MFunction f))))) /\
-             ((forall f, field_opt "id" (field "func" (field "value" k)) <> Some (NId f)) ->
-              tarfile_unsafe_members_fn c = Raise AttributeError)) /\
+             tarfile_unsafe_members_fn c =
+             Ok (Some (tar_issue TarLow
+                         (members_dict_str (MFunction (members_callee_name (field "func" (field "value" k)))))))) /\
   (* members=<anything else> : MEDIUM/MEDIUM *)
   (forall k, tar_filtered l kws = false -> kw_mem (s2p "members") l = true ->
              first_kw (s2p "members") kws = Some k -> is_cls "Call" (field "value" k) = false ->
-             exists m, members_of_value (field "value" k) = Ok m /\ members_grade m = TarMedium /\
-                       tarfile_unsafe_members_fn c = Ok (Some (tar_issue TarMedium (members_dict_str m)))) /\
+             members_grade (members_of_value (field "value" k)) = TarMedium /\
+             tarfile_unsafe_members_fn c =
+             Ok (Some (tar_issue TarMedium (members_dict_str (members_of_value (field "value" k)))))) /\
   (* a members key that is not a keyword of the node (context call <> context node) *)
   (tar_filtered l kws = false -> kw_mem (s2p "members") l = true ->
    first_kw (s2p "members") kws = None -> tarfile_unsafe_members_fn c = Raise TypeError).
@@ -585,20 +584,27 @@ Proof.
     destruct (value_is_data (field "value" n)); reflexivity. }
   assert (GM : get_members_value c =
                match first_kw (s2p "members") kws with
-               | Some k => do m <- members_of_value (field "value" k);; Ok (Some m)
+               | Some k => Ok (Some (members_of_value (field "value" k)))
                | None => Ok None
                end).
   { unfold get_members_value. rewrite Hnk. reflexivity. }
-  repeat split.
+  split; [|split; [|split; [|split]]].
   - intro F. rewrite Base, F. reflexivity.
   - intros F M. rewrite Base, F, M. reflexivity.
-  - intros f Hf. rewrite Base, H, H0, GM, H1. unfold members_of_value. rewrite H2, Hf. reflexivity.
-  - intros Hf. rewrite Base, H, H0, GM, H1. unfold members_of_value. rewrite H2.
-    destruct (field_opt "id" (field "func" (field "value" k))) as [[| | | f | |]|]; try reflexivity.
-    exfalso. apply (Hf f). reflexivity.
+  - intros k F M Hk1 Hc. rewrite Base, F, M, GM, Hk1. unfold members_of_value. rewrite Hc. reflexivity.
   - intros k F M Hk1 Hc. rewrite Base, F, M, GM, Hk1. unfold members_of_value. rewrite Hc.
-    destruct (is_cls "Name" (field "value" k)); eexists; repeat split.
+    destruct (is_cls "Name" (field "value" k)); split; reflexivity.
   - intros F M Hk1. rewrite Base, F, M, GM, Hk1. reflexivity.
+Qed.
+
+(* the callee name of members=<Call>: f(...) -> 'f', o.m(...) -> 'm', f()(...) -> '' *)
+Lemma members_callee_name_cases :
+  (forall l id, id <> "" -> members_callee_name (mx_name l id) = s2p id) /\
+  (forall l v a, members_callee_name (mx_attr l v a) = s2p a) /\
+  (forall l f, members_callee_name (mx_call l f [] []) = []).
+Proof.
+  split; [|split]; [|reflexivity|reflexivity].
+  intros l id Hid. unfold members_callee_name. simpl. destruct id; [contradiction | reflexivity].
 Qed.
 
 Definition tar_ex (kws : list node) : ctx :=
@@ -611,7 +617,9 @@ Example tarfile_grading_rule_ex :
   tarfile_unsafe_members_fn (tar_ex [mx_kw 2 "members" (mx_name 2 "ms")])
   = Ok (Some (tar_issue TarMedium (s2p "{'Other': 'ms'}"))) /\
   tarfile_unsafe_members_fn (tar_ex [mx_kw 2 "members" (mx_call 2 (mx_attr 2 (mx_name 2 "tar") "getmembers") [] [])])
-  = Raise AttributeError /\
+  = Ok (Some (tar_issue TarLow (s2p "{'Function': 'getmembers'}"))) /\
+  tarfile_unsafe_members_fn (tar_ex [mx_kw 2 "members" (mx_const 2 CNone)])
+  = Ok (Some (tar_issue TarMedium (s2p "{'Other': <AST-OBJECT>}"))) /\
   tarfile_unsafe_members_fn (tar_ex [mx_kw 2 "members" (mx_name 2 "ms"); mx_kw 2 "filter" (mx_const 2 (CStr (s2p "data")))])
   = Ok None.
 Proof. vm_compute. repeat split. Qed.
@@ -832,3 +840,339 @@ Example misc_safe_variant_silent_ex :
   = Ok (PStr (s2p "True")) /\
   get_call_arg_value (flask_ex (CBool false)) (s2p "debug") = Ok (PStr (s2p "False")).
 Proof. vm_compute. repeat split. Qed.
+
+(* ------------------------------------------------------------------------------------------ *)
+(* totality: the Context accessors never raise (a set display skips its unhashable elements)   *)
+
+Fixpoint lv_items (is : list node) : res (list pyval) :=
+  match is with
+  | [] => Ok []
+  | i :: is' => do x <- literal_value i;; do xs <- lv_items is';; Ok (x :: xs)
+  end.
+Fixpoint lv_elts (l : list (string * node)) : res (list pyval) :=
+  match l with
+  | [] => Ok []
+  | (k, v) :: t =>
+      if String.eqb "elts" k then match v with NList its => lv_items its | _ => Ok [] end
+      else lv_elts t
+  end.
+Fixpoint lv_addall (l acc : list pyval) : res pyval :=
+  match l with
+  | [] => Ok (PSet acc)
+  | v :: l' => if hashable v then lv_addall l' (set_add_val v acc) else lv_addall l' acc
+  end.
+
+Lemma literal_value_node c p fs :
+  literal_value (Node c p fs) =
+  if String.eqb c "Constant" then
+    match lookup_field "value" fs with Some (NConst k) => Ok (const_value k) | _ => Ok PNone end
+  else if String.eqb c "List" then do l <- lv_elts fs;; Ok (PList l)
+  else if String.eqb c "Tuple" then do l <- lv_elts fs;; Ok (PTuple l)
+  else if String.eqb c "Set" then do l <- lv_elts fs;; lv_addall l []
+  else if String.eqb c "Dict" then
+    Ok (PDict (combine (items (match lookup_field "keys" fs with Some k => k | None => NNone end))
+                       (items (match lookup_field "values" fs with Some k => k | None => NNone end))))
+  else if String.eqb c "Name" then
+    Ok (PStr (match lookup_field "id" fs with Some (NId s) => s | _ => [] end))
+  else Ok PNone.
+Proof. reflexivity. Qed.
+
+Definition lv_ok (n : node) : Prop := exists v, literal_value n = Ok v.
+Definition lv_P (n : node) : Prop := lv_ok n /\ (forall its, n = NList its -> Forall lv_ok its).
+
+Lemma lv_items_total its : Forall lv_ok its -> exists l, lv_items its = Ok l.
+Proof.
+  induction 1 as [|i its [v Hv] _ [l Hl]]; simpl; [eauto|]. rewrite Hv, Hl. simpl. eauto.
+Qed.
+
+Lemma lv_elts_total fs : Forall (fun kv => lv_P (snd kv)) fs -> exists l, lv_elts fs = Ok l.
+Proof.
+  induction 1 as [|[k v] fs [_ Hv] _ IH]; [simpl; eauto|].
+  change (lv_elts ((k, v) :: fs))
+    with (if String.eqb "elts" k then match v with NList its => lv_items its | _ => Ok [] end else lv_elts fs).
+  destruct (String.eqb "elts" k); [|exact IH].
+  destruct v; eauto. apply lv_items_total. apply Hv. reflexivity.
+Qed.
+
+Lemma lv_addall_total l : forall acc, exists v, lv_addall l acc = Ok v.
+Proof. induction l as [|x l IH]; intro acc; simpl; [eauto|]. destruct (hashable x); apply IH. Qed.
+
+Lemma literal_value_P : forall n, lv_P n.
+Proof.
+  apply node_ind'.
+  - intros c p fs H. split; [|intros; discriminate]. unfold lv_ok. rewrite literal_value_node.
+    destruct (lv_elts_total fs H) as [l Hl]. rewrite Hl. unfold bind.
+    destruct (String.eqb c "Constant").
+    { destruct (lookup_field "value" fs) as [[]|]; eauto. }
+    destruct (String.eqb c "List"); [eauto|].
+    destruct (String.eqb c "Tuple"); [eauto|].
+    destruct (String.eqb c "Set"); [apply lv_addall_total|].
+    destruct (String.eqb c "Dict"); [eauto|].
+    destruct (String.eqb c "Name"); eauto.
+  - intros l H. split; [exists PNone; reflexivity|]. intros its E. inversion E; subst.
+    eapply Forall_impl; [|exact H]. intros a [Ha _]. exact Ha.
+  - intros. split; [exists PNone; reflexivity | intros; discriminate].
+  - intros. split; [exists PNone; reflexivity | intros; discriminate].
+  - intros. split; [exists PNone; reflexivity | intros; discriminate].
+  - split; [exists PNone; reflexivity | intros; discriminate].
+Qed.
+
+Theorem literal_value_total : forall n, exists v, literal_value n = Ok v.
+Proof. intro n. exact (proj1 (literal_value_P n)). Qed.
+
+Lemma arg_value_total a : exists v, arg_value a = Ok v.
+Proof. unfold arg_value. destruct (is_cls "Attribute" a); [eauto | apply literal_value_total]. Qed.
+
+Lemma mapM_total {A B} (f : A -> res B) :
+  (forall x, exists y, f x = Ok y) -> forall l, exists l', mapM f l = Ok l'.
+Proof.
+  intros Hf l. induction l as [|x l [l' IH]]; simpl; [eauto|].
+  destruct (Hf x) as [y Hy]. rewrite Hy, IH. simpl. eauto.
+Qed.
+
+Definition kw_entry (k : node) : res (option pstr * pyval) :=
+  do v <- arg_value (field "value" k);; Ok (kw_arg k, v).
+
+Lemma kw_entry_total k : exists e, kw_entry k = Ok e.
+Proof. unfold kw_entry. destruct (arg_value_total (field "value" k)) as [v Hv]. rewrite Hv. simpl. eauto. Qed.
+
+Lemma call_keywords_eq c :
+  call_keywords c =
+  match c_call c with
+  | Some call => do l <- mapM kw_entry (field_list "keywords" call);; Ok (Some l)
+  | None => Ok None
+  end.
+Proof. reflexivity. Qed.
+
+Lemma call_keywords_total c : exists o, call_keywords c = Ok o.
+Proof.
+  rewrite call_keywords_eq. destruct (c_call c) as [call|]; [|eauto].
+  destruct (mapM_total kw_entry kw_entry_total (field_list "keywords" call)) as [l Hl].
+  rewrite Hl. simpl. eauto.
+Qed.
+
+Lemma get_call_arg_value_total c n : exists v, get_call_arg_value c n = Ok v.
+Proof.
+  unfold get_call_arg_value. destruct (call_keywords_total c) as [o Ho]. rewrite Ho. simpl.
+  destruct o as [l|]; [|eauto]. destruct (kw_lookup n l); eauto.
+Qed.
+
+Lemma check_call_arg_value_total c n vals : exists o, check_call_arg_value c n vals = Ok o.
+Proof.
+  unfold check_call_arg_value. destruct (get_call_arg_value_total c n) as [v Hv]. rewrite Hv. simpl.
+  destruct v; eauto.
+Qed.
+
+Lemma get_call_arg_at_position_total c i : exists v, get_call_arg_at_position c i = Ok v.
+Proof.
+  unfold get_call_arg_at_position. destruct (c_call c) as [call|]; [|eauto].
+  destruct (Nat.ltb i (List.length (field_list "args" call))); [|eauto].
+  destruct (is_cls "Attribute" (nth i (field_list "args" call) NNone)
+            && truthy_str (attr_of (nth i (field_list "args" call) NNone))); [eauto|].
+  apply literal_value_total.
+Qed.
+
+(* the context the visitor hands to a Call check (visit_Call: call = node, qualname, name set;
+   a parsed Call node carries a position and a keywords list) *)
+Definition call_ctx (c : ctx) : Prop :=
+  (exists q, c_qualname c = Some q) /\ (exists nm, c_name c = Some nm) /\
+  c_call c = Some (c_node c) /\ (exists l, lineno_of (c_node c) = Some l) /\
+  (exists v, field_opt "keywords" (c_node c) = Some v).
+
+Lemma call_ctx_mx call imports q :
+  (exists l, lineno_of call = Some l) -> (exists v, field_opt "keywords" call = Some v) ->
+  call_ctx (mx_ctx call imports q).
+Proof. intros Hl Hk. unfold call_ctx, mx_ctx; simpl. repeat split; eauto. Qed.
+
+(* keys of call_keywords are the .arg of the keyword nodes, in order *)
+Lemma mapM_kw_entry_keys ks : forall l, mapM kw_entry ks = Ok l -> map fst l = map kw_arg ks.
+Proof.
+  induction ks as [|k ks IH]; intros l H; simpl in H.
+  - inversion H; reflexivity.
+  - unfold kw_entry at 1 in H. destruct (arg_value (field "value" k)) as [v|e]; simpl in H; [|discriminate].
+    destruct (mapM kw_entry ks) as [l'|e]; simpl in H; [|discriminate].
+    inversion H; subst. simpl. f_equal. apply IH. reflexivity.
+Qed.
+
+Lemma kw_lookup_in name l v : kw_lookup name l = Some v -> In (Some name) (map fst l).
+Proof.
+  revert v. induction l as [|[k' v'] l IH]; intro v; simpl; [discriminate|].
+  destruct (kw_lookup name l) as [w|].
+  - intros _. right. apply (IH w eq_refl).
+  - destruct k' as [x|]; simpl; [|discriminate].
+    destruct (pstr_eqb name x) eqn:E; [|discriminate].
+    apply pstr_eqb_spec in E. subst. intros _. left. reflexivity.
+Qed.
+
+Lemma first_kw_of_in name ks : In (Some name) (map kw_arg ks) -> exists k, first_kw name ks = Some k.
+Proof.
+  unfold first_kw. induction ks as [|a ks IH]; simpl; [intros []|].
+  intros [H|H].
+  - rewrite H. simpl. rewrite pstr_eqb_refl. eauto.
+  - destruct (okey_eqb (kw_arg a) (Some name)); eauto.
+Qed.
+
+Lemma kw_mem_first_kw c l name :
+  c_call c = Some (c_node c) -> call_keywords c = Ok (Some l) -> kw_mem name l = true ->
+  exists k, first_kw name (field_list "keywords" (c_node c)) = Some k.
+Proof.
+  intros Hc Hk Hm. rewrite call_keywords_eq, Hc in Hk.
+  destruct (mapM kw_entry (field_list "keywords" (c_node c))) as [l'|e] eqn:E; simpl in Hk; [|discriminate].
+  inversion Hk; subst l'. apply first_kw_of_in. rewrite <- (mapM_kw_entry_keys _ _ E).
+  unfold kw_mem in Hm. destruct (kw_lookup name l) as [v|] eqn:El; [|discriminate].
+  eapply kw_lookup_in. exact El.
+Qed.
+
+Lemma node_keywords_ok c v :
+  field_opt "keywords" (c_node c) = Some v ->
+  node_keywords c = Ok (field_list "keywords" (c_node c)).
+Proof. intro H. unfold node_keywords, field_list, field. rewrite H. reflexivity. Qed.
+
+(* ------------------------------------------------------------------------------------------ *)
+(* <plugin>_never_raises                                                                       *)
+
+Theorem yaml_load_never_raises : forall c, call_ctx c -> forall e, yaml_load_fn c <> Raise e.
+Proof.
+  intros c [[q Hq] [_ [_ [[l Hl] _]]]] e. unfold yaml_load_fn. rewrite Hq.
+  destruct (is_module_imported_exact c (s2p "yaml")); simpl; [|discriminate].
+  rewrite yaml_args_unsafe_eq.
+  destruct (get_call_arg_value_total c (s2p "Loader")) as [kwv Hk]. rewrite Hk. simpl.
+  destruct (get_call_arg_at_position_total c 1) as [p Hp]. rewrite Hp. simpl.
+  destruct (yaml_name_hit q && (negb (is_safe_loader kwv) && negb (is_safe_loader p))); [|discriminate].
+  rewrite Hl. discriminate.
+Qed.
+
+Theorem pytorch_load_never_raises : forall c, call_ctx c -> forall e, pytorch_load_fn c <> Raise e.
+Proof.
+  intros c [[q Hq] _] e. unfold pytorch_load_fn. rewrite Hq.
+  destruct (is_module_imported_exact c (s2p "torch")); simpl; [|discriminate].
+  destruct (torch_name_hit q); [|discriminate].
+  destruct (get_call_arg_value_total c (s2p "weights_only")) as [w Hw]. rewrite Hw. simpl.
+  destruct (weights_only_true w); discriminate.
+Qed.
+
+Theorem tarfile_unsafe_members_never_raises :
+  forall c, call_ctx c -> forall e, tarfile_unsafe_members_fn c <> Raise e.
+Proof.
+  intros c [_ [[nm Hn] [Hc [_ [v Hv]]]]] e. unfold tarfile_unsafe_members_fn. rewrite Hn.
+  destruct (tarfile_name_hit c nm); [|discriminate].
+  destruct (call_keywords_total c) as [o Ho]. rewrite Ho. simpl.
+  destruct o as [l|].
+  2:{ rewrite call_keywords_eq, Hc in Ho.
+      destruct (mapM kw_entry (field_list "keywords" (c_node c))); simpl in Ho; discriminate. }
+  unfold is_filter_data, get_members_value. rewrite (node_keywords_ok c v Hv). simpl.
+  assert (F : exists b, (if kw_mem (s2p "filter") l
+                         then match first_kw (s2p "filter") (field_list "keywords" (c_node c)) with
+                              | Some k => Ok (value_is_data (field "value" k))
+                              | None => Ok false
+                              end
+                         else Ok false) = Ok b).
+  { destruct (kw_mem (s2p "filter") l); [|eauto].
+    destruct (first_kw (s2p "filter") (field_list "keywords" (c_node c))); eauto. }
+  destruct F as [b Hb]. rewrite Hb. simpl. destruct b; [discriminate|].
+  destruct (kw_mem (s2p "members") l) eqn:Em; [|discriminate].
+  destruct (kw_mem_first_kw c l (s2p "members") Hc Ho Em) as [k Hk]. rewrite Hk. discriminate.
+Qed.
+
+Theorem flask_debug_true_never_raises : forall c, call_ctx c -> forall e, flask_debug_true_fn c <> Raise e.
+Proof.
+  intros c [[q Hq] _] e. unfold flask_debug_true_fn.
+  destruct (is_module_imported_like c (s2p "flask")); [|discriminate]. rewrite Hq.
+  destruct (endswith q (s2p ".run")); [|discriminate].
+  destruct (check_call_arg_value_total c (s2p "debug") [PStr (s2p "True")]) as [o Ho]. rewrite Ho. simpl.
+  destruct (is_some_true o); discriminate.
+Qed.
+
+Theorem logging_config_insecure_listen_never_raises :
+  forall c, call_ctx c -> forall e, logging_config_insecure_listen_fn c <> Raise e.
+Proof.
+  intros c [_ [_ [Hc _]]] e. unfold logging_config_insecure_listen_fn.
+  destruct (okey_eqb (c_qualname c) (Some listen_qual)); [|discriminate].
+  rewrite call_keywords_eq, Hc.
+  destruct (mapM_total kw_entry kw_entry_total (field_list "keywords" (c_node c))) as [l Hl].
+  rewrite Hl. simpl. destruct (kw_mem (s2p "verify") l); discriminate.
+Qed.
+
+Theorem paramiko_calls_never_raises : forall c e, paramiko_calls_fn c <> Raise e.
+Proof. intros c e. exact (proj2 (paramiko_rule c) e). Qed.
+
+Theorem exec_used_never_raises : forall c e, exec_used_fn c <> Raise e.
+Proof. intros c e. exact (proj2 (exec_rule c) e). Qed.
+
+(* the generated default configurations (gen_config) *)
+Definition assert_default_cfg : jv := JDict [(s2p "skips", JList [])].
+Definition try_default_cfg : jv := JDict [(s2p "check_typed_exception", JBool false)].
+
+(* B101: total whenever skips is a list of strings; under the default it always reports *)
+Theorem assert_used_never_raises :
+  (forall c, assert_used_fn assert_default_cfg c = Ok (Some assert_issue)) /\
+  (forall cfg gs c e, assert_skips cfg = Ok (map JStr gs) -> assert_used_fn cfg c <> Raise e).
+Proof.
+  split.
+  - intro c. reflexivity.
+  - intros cfg gs c e H. unfold assert_used_fn. rewrite H. simpl. rewrite assert_loop_strs.
+    destruct (existsb (fnmatch_b (c_filename c)) gs); discriminate.
+Qed.
+
+(* a parsed ExceptHandler carries a body list and a type attribute *)
+Definition handler_ctx (c : ctx) : Prop :=
+  (exists body, field_opt "body" (c_node c) = Some (NList body)) /\
+  (exists t, field_opt "type" (c_node c) = Some t).
+
+Lemma try_except_fn_never_raises stmt text cfg c b :
+  handler_ctx c -> cfg_check_typed cfg = Ok b -> forall e, try_except_fn stmt text cfg c <> Raise e.
+Proof.
+  intros [[body Hb] [t Ht]] Hc e. unfold try_except_fn.
+  apply handler_body_ok in Hb. rewrite Hb. simpl.
+  destruct body as [|s [|s2 rest]]; try discriminate.
+  unfold typed_gate. rewrite Hc. simpl. destruct b; simpl.
+  - destruct (is_cls stmt s); discriminate.
+  - rewrite Ht. simpl. destruct (type_is_broad t); [destruct (is_cls stmt s)|]; discriminate.
+Qed.
+
+(* B110 / B112: total for every configuration dict that has the key, in particular the default *)
+Theorem try_except_pass_never_raises :
+  forall c, handler_ctx c ->
+  (forall e, try_except_pass_fn try_default_cfg c <> Raise e) /\
+  (forall cfg b e, cfg_check_typed cfg = Ok b -> try_except_pass_fn cfg c <> Raise e).
+Proof.
+  intros c H. split.
+  - intro e. apply (try_except_fn_never_raises _ _ _ _ false H). reflexivity.
+  - intros cfg b e Hc. apply (try_except_fn_never_raises _ _ _ _ b H Hc).
+Qed.
+
+Theorem try_except_continue_never_raises :
+  forall c, handler_ctx c ->
+  (forall e, try_except_continue_fn try_default_cfg c <> Raise e) /\
+  (forall cfg b e, cfg_check_typed cfg = Ok b -> try_except_continue_fn cfg c <> Raise e).
+Proof.
+  intros c H. split.
+  - intro e. apply (try_except_fn_never_raises _ _ _ _ false H). reflexivity.
+  - intros cfg b e Hc. apply (try_except_fn_never_raises _ _ _ _ b H Hc).
+Qed.
+
+Example never_raises_ex :
+  call_ctx (yaml_ex [mx_kw 2 "Loader" (Node "Set" (mx_pos 2) [("elts", NList [Node "List" (mx_pos 2) [("elts", NList [mx_const 2 (CInt 1)]); ("ctx", Node "Load" None [])]])])] []) /\
+  call_ctx (tar_ex [mx_kw 2 "members" (mx_call 2 (mx_attr 2 (mx_name 2 "tar") "getmembers") [] [])]) /\
+  handler_ctx (mx_stmt_ctx (ex_handler (mx_name 3 "ValueError") "Pass")) /\
+  cfg_check_typed try_default_cfg = Ok false /\
+  (* what can still raise: a configuration of the wrong shape *)
+  try_except_pass_fn (JDict []) (mx_stmt_ctx (ex_handler NNone "Pass")) = Raise KeyError /\
+  assert_used_fn (JDict [(s2p "skips", JNull)]) (mx_stmt_ctx (Node "Assert" (mx_pos 1) [])) = Raise TypeError.
+Proof.
+  split; [|split; [|split; [|split; [|split]]]]; try reflexivity.
+  - apply call_ctx_mx; eexists; reflexivity.
+  - apply call_ctx_mx; eexists; reflexivity.
+  - split; eexists; reflexivity.
+Qed.
+
+(* the context visit_Call builds for a parsed Call node satisfies call_ctx *)
+From Bandit Require Import Engine.Tester Engine.Visitor.
+Lemma call_ctx_visitor E n parents sib st q :
+  (exists p, pos_of n = Some p) -> (exists v, field_opt "keywords" n = Some v) ->
+  call_ctx (ctx_set_call (base_ctx E n parents sib st) n q).
+Proof.
+  intros [p Hp] Hk. unfold call_ctx, ctx_set_call, base_ctx. simpl.
+  split; [eauto|]. split; [eauto|]. split; [reflexivity|]. split; [|exact Hk].
+  exists (p_line p). unfold lineno_of. rewrite Hp. reflexivity.
+Qed.
